@@ -19,7 +19,7 @@ use crate::{
     },
 };
 
-pub const LINES: [&str; 14] = [
+pub const LINES: [&str; 16] = [
     "",
     "a",
     "-",
@@ -34,6 +34,9 @@ pub const LINES: [&str; 14] = [
     "a\rb",
     "a-",
     "a\r ",
+    // whitespace that is NOT removed at line ends (RFC 9580 7.2 strips space and tab only)
+    "a\u{c}",
+    "b\u{a0} ",
 ];
 /// sub-alphabet for deeper texts: indices into LINES
 pub const SHAPES4: [u8; 4] = [0, 1, 2, 6];
@@ -263,7 +266,7 @@ pub struct MutCase {
     pub arg: u8,
 }
 
-pub const INSERTS: [&[u8]; 7] = [b"-", b" ", b"\n", b"x", b"\r", b"\t", b"- "];
+pub const INSERTS: [&[u8]; 10] = [b"-", b" ", b"\n", b"x", b"\r", b"\t", b"- ", b"\x0c", b"\x0b", b"\xc2\xa0"];
 
 /// region of the document open to the adversary: after the first line, before the signature block
 fn mut_region(doc: &[u8]) -> (usize, usize) {
@@ -277,7 +280,7 @@ fn mut_region(doc: &[u8]) -> (usize, usize) {
     (start, end)
 }
 
-fn run_mut(c: &MutCase) -> Outcome {
+pub fn run_mut(c: &MutCase) -> Outcome {
     let text = build_text(&c.base);
     let ks = keys(c.base.cfg);
     let Ok(msg) = sign_text(&c.base, &text) else {
@@ -390,6 +393,64 @@ fn seqs(alpha: &[u8], max_len: usize) -> Vec<Vec<u8>> {
     out
 }
 
+/// Single deviations of armored cleartext documents (shared with C02's cleartext space).
+pub fn tamper_cases(quick: bool) -> Vec<MutCase> {
+    let bases: Vec<TextCase> = [
+        (vec![1u8], 0u8, 0u8, 0u8),
+        (vec![1, 2, 6], 0, 1, 0),
+        (vec![3, 4], 1, 0, 0),
+        (vec![7, 15], 0, 1, 0),
+        (vec![6, 0, 12], 0, 0, 1),
+        (vec![], 0, 0, 0),
+        (vec![10, 7], 0, 1, 3),
+        (vec![14, 8, 1], 1, 1, 0),
+    ]
+    .into_iter()
+    .take(if quick { 5 } else { 8 })
+    .map(|(lines, eol, fin, cfg)| TextCase {
+        lines,
+        eol,
+        fin,
+        cfg,
+    })
+    .collect();
+    let mut muts = Vec::new();
+    for b in &bases {
+        let text = build_text(b);
+        let doc = sign_text(b, &text)
+            .and_then(|m| m.to_armored_bytes(None.into()))
+            .expect("base document");
+        let (s, e) = mut_region(&doc);
+        for pos in s..e {
+            for bit in 0..8u8 {
+                muts.push(MutCase {
+                    base: b.clone(),
+                    op: 0,
+                    pos,
+                    arg: bit,
+                });
+            }
+            muts.push(MutCase {
+                base: b.clone(),
+                op: 1,
+                pos,
+                arg: 0,
+            });
+        }
+        for pos in s..=e {
+            for k in 0..INSERTS.len() as u8 {
+                muts.push(MutCase {
+                    base: b.clone(),
+                    op: 2,
+                    pos,
+                    arg: k,
+                });
+            }
+        }
+    }
+    muts
+}
+
 pub fn check(ctx: &Ctx) {
     let all: Vec<u8> = (0..LINES.len() as u8).collect();
     let quick = ctx.tier == Tier::Quick;
@@ -444,67 +505,17 @@ pub fn check(ctx: &Ctx) {
     ctx.run_space(
         "texts",
         true,
-        "texts = sequences of lines from a 14-line alphabet (dash lines, armor boundary strings, trailing blanks, inner CR, UTF-8) up to 3 (thorough 5) lines and from a 4-shape sub-alphabet up to 6 (10) lines x line ending {LF,CRLF,mixed} x final {none,newline,lone CR} x {sign v4, sign v6, new SHA-512, new_many 2 signers}: sign -> signed_text = RFC form -> armored -> independent reader sees the text -> from_string -> same text, verifies; non-trivial = text contains '-', blank, TAB or CR",
+        "texts = sequences of lines from a 16-line alphabet (dash lines, armor boundary strings, trailing blanks, inner CR, UTF-8, lines ending in FF / NBSP) up to 3 (thorough 5) lines and from a 4-shape sub-alphabet up to 6 (10) lines x line ending {LF,CRLF,mixed} x final {none,newline,lone CR} x {sign v4, sign v6, new SHA-512, new_many 2 signers}: sign -> signed_text = RFC form -> armored -> independent reader sees the text -> from_string -> same text, verifies; non-trivial = text contains '-', blank, TAB or CR",
         cases.into_par_iter(),
         run_text,
     );
 
     // adversary on the armored document
-    let bases: Vec<TextCase> = [
-        (vec![1u8], 0u8, 0u8, 0u8),
-        (vec![1, 2, 6], 0, 1, 0),
-        (vec![3, 4], 1, 0, 0),
-        (vec![6, 0, 12], 0, 0, 1),
-        (vec![], 0, 0, 0),
-        (vec![10, 7], 0, 1, 3),
-    ]
-    .into_iter()
-    .take(if quick { 4 } else { 6 })
-    .map(|(lines, eol, fin, cfg)| TextCase {
-        lines,
-        eol,
-        fin,
-        cfg,
-    })
-    .collect();
-    let mut muts = Vec::new();
-    for b in &bases {
-        let text = build_text(b);
-        let doc = sign_text(b, &text)
-            .and_then(|m| m.to_armored_bytes(None.into()))
-            .expect("base document");
-        let (s, e) = mut_region(&doc);
-        for pos in s..e {
-            for bit in 0..8u8 {
-                muts.push(MutCase {
-                    base: b.clone(),
-                    op: 0,
-                    pos,
-                    arg: bit,
-                });
-            }
-            muts.push(MutCase {
-                base: b.clone(),
-                op: 1,
-                pos,
-                arg: 0,
-            });
-        }
-        for pos in s..=e {
-            for k in 0..INSERTS.len() as u8 {
-                muts.push(MutCase {
-                    base: b.clone(),
-                    op: 2,
-                    pos,
-                    arg: k,
-                });
-            }
-        }
-    }
+    let muts = tamper_cases(quick);
     ctx.run_space(
         "document_tamper",
         true,
-        "for base documents: every single-bit flip, every single-byte deletion and every insertion of one of 7 strings at every position of the Hash header + text section; oracle: if the library accepts and verifies, an independent reader must see the same RFC signed form",
+        "for base documents: every single-bit flip, every single-byte deletion and every insertion of one of 10 strings (dash, blank, LF, CR, TAB, letter, dash escape, FF, VT, NBSP) at every position of the Hash header + text section; oracle: if the library accepts and verifies, an independent reader must see the same RFC signed form",
         muts.into_par_iter(),
         run_mut,
     );
